@@ -58,13 +58,19 @@ def index_of_site(v, site_block, t, argi=0):
     return None
 
 
-def direction_table(ctx, v, compute_rx, roles, rule):
-    """{(guard indices...): {role: index}} for one function."""
+def direction_table(ctx, v, compute_rx, roles, rule, amount_arg=None, amount_role="offer"):
+    """{(guard indices...): {role: index}} for one function. Which parameter is the offer and which the ask is
+    decided by use, not by name: the parameter whose `.amount` feeds the amount argument of the computation has
+    role `amount_role`; any other asset parameter compared against the pools has the opposite role."""
     cs = v.calls_to(compute_rx)
     if len(cs) != 1:
         ctx.missing(rule, "single %s call in %s" % (compute_rx, v.path))
         return None
     cb, ct = cs[0]
+    if amount_arg is None:
+        amount_arg = max(roles.values()) + 1
+    amount_params = {o.a for o in v.origins_of_operand(ct["args"][amount_arg], at=v.at_term(cb)) if o.kind == "param"}
+    other_role = "ask" if amount_role == "offer" else "offer"
     # clone sites per role
     site_role = {}
     with v.opaque(CLONE):
@@ -81,7 +87,7 @@ def direction_table(ctx, v, compute_rx, roles, rule):
             who = None
             for o in a0:
                 if o.kind == "param":
-                    who = v.var_name(o.a) or "param%d" % o.a
+                    who = (amount_role if o.a in amount_params else other_role) + "_asset"
             idx = index_of_site(v, c.block, c.term, 1)
             te, fe = cmp_true_false_edges(v, b, c)
             guards.append((b, who, idx, fe if c.neg else te))
@@ -99,15 +105,15 @@ def direction_table(ctx, v, compute_rx, roles, rule):
 
 
 def check_trio_directions(ctx, model, rule="C14-S3"):
-    fns = [("stableswap_3pool::commands::swap", r"^stableswap_3pool::helpers::compute_swap$"),
-           ("stableswap_3pool::queries::query_simulation", r"^stableswap_3pool::helpers::compute_swap$"),
-           ("stableswap_3pool::queries::query_reverse_simulation", r"^stableswap_3pool::helpers::compute_offer_amount$")]
+    fns = [("stableswap_3pool::commands::swap", r"^stableswap_3pool::helpers::compute_swap$", "offer"),
+           ("stableswap_3pool::queries::query_simulation", r"^stableswap_3pool::helpers::compute_swap$", "offer"),
+           ("stableswap_3pool::queries::query_reverse_simulation", r"^stableswap_3pool::helpers::compute_offer_amount$", "ask")]
     tables = {}
-    for p, rx in fns:
+    for p, rx, arole in fns:
         v = ctx.view(p, rule)
         if v is None:
             continue
-        t = direction_table(ctx, v, rx, {"offer": 0, "ask": 1, "unswapped": 2}, rule)
+        t = direction_table(ctx, v, rx, {"offer": 0, "ask": 1, "unswapped": 2}, rule, amount_arg=3, amount_role=arole)
         if t is None:
             continue
         norm = {}
@@ -143,7 +149,7 @@ def check_pair_directions(ctx, model, rule="C14-S3"):
         v = ctx.view(p, rule)
         if v is None:
             continue
-        t = direction_table(ctx, v, rx, roles, rule)
+        t = direction_table(ctx, v, rx, roles, rule, amount_arg=2, amount_role="offer")
         if t is None:
             continue
         bad = []
